@@ -216,6 +216,17 @@ pub fn generate_c02(tier: &str, seed: u64, out: &mut Out) {
                 req_total(out, e, &t);
             }
         }
+        // every prefix of the value (a flag without its argument, an unclosed bracket, ...), also
+        // followed by a blank or a multi-byte character
+        let cs: Vec<char> = v.chars().collect();
+        for n in 1..cs.len() {
+            let pre: String = cs[..n].iter().collect();
+            for t in [pre.clone(), format!("{} ", pre), format!("{}\u{e9}", pre)] {
+                for e in &small {
+                    req_total(out, e, &t);
+                }
+            }
+        }
     }
     // (b3) the generated documents of the typed lossy readers (C20's generator: every field with
     //      every text of its value pool, accepted and rejected, missing fields, structural cases)
